@@ -28,7 +28,7 @@
 
 namespace {
 
-enum OpKind { OP_START, OP_WAIT, OP_POST, OP_JOIN };
+enum OpKind { OP_START, OP_WAIT, OP_POST, OP_JOIN, OP_CONT };
 
 struct Th {
   int id;
@@ -52,6 +52,8 @@ std::vector<int> g_choices;
 size_t g_choice_pos = 0;
 unsigned long long g_rng = 0;
 bool g_random = false;
+int g_policy = 0;   // after the script: 0 = first enabled thread, 1 = last enabled thread ("hi"), 2 = alternate ("alt")
+unsigned g_step = 0;
 int g_expected = 0;
 bool g_deadlock = false;
 
@@ -96,14 +98,18 @@ int pv_sem_init(void *sem, unsigned int value) {
   g_sem_count.push_back(value);
   return 1;
 }
+// After the operation itself has been granted and performed the thread yields once more ("cont"), so that other
+// threads can be scheduled between the semaphore operation and the code that follows it.
 int pv_sem_wait(void *sem) {
   { std::unique_lock<std::mutex> lk(g_mu); if (!g_on || !g_sem_id.count(sem)) return 0; }
   yield_op(OP_WAIT, sem);
+  yield_op(OP_CONT, sem);
   return 1;
 }
 int pv_sem_post(void *sem) {
   { std::unique_lock<std::mutex> lk(g_mu); if (!g_on || !g_sem_id.count(sem)) return 0; }
   yield_op(OP_POST, sem);
+  yield_op(OP_CONT, sem);
   return 1;
 }
 void pv_thread_begin(void) {
@@ -144,7 +150,7 @@ void pv_expect(int n) {
   g_ctl.wait(lk, [n] { return (int)g_threads.size() >= n; });
 }
 
-const char *opname(OpKind k) { return k == OP_START ? "start" : k == OP_WAIT ? "wait" : k == OP_POST ? "post" : "join"; }
+const char *opname(OpKind k) { return k == OP_START ? "start" : k == OP_WAIT ? "wait" : k == OP_POST ? "post" : k == OP_CONT ? "cont" : "join"; }
 
 void controller() {
   std::unique_lock<std::mutex> lk(g_mu);
@@ -164,6 +170,7 @@ void controller() {
       switch (t->op) {
         case OP_START: en = true; break;
         case OP_POST: en = true; break;
+        case OP_CONT: en = true; break;
         case OP_WAIT: en = g_sem_count[g_sem_id[t->sem]] > 0; break;
         case OP_JOIN: {
           en = true;
@@ -180,6 +187,8 @@ void controller() {
       g_branch.push_back((int)enabled.size());
       if (g_choice_pos < g_choices.size()) pick = (size_t)g_choices[g_choice_pos++] % enabled.size();
       else if (g_random) { g_rng = g_rng * 6364136223846793005ULL + 1442695040888963407ULL; pick = (size_t)((g_rng >> 33) % enabled.size()); }
+      else if (g_policy == 1) pick = enabled.size() - 1;
+      else if (g_policy == 2) pick = (g_step++) % enabled.size();
     }
     Th *t = enabled[pick];
     if (t->op == OP_WAIT) --g_sem_count[g_sem_id[t->sem]];
@@ -206,7 +215,9 @@ void parse_choices(const std::string &s) {
   std::string t;
   while (std::getline(is, t, ',')) {
     if (t.empty()) continue;
-    if (t[0] == 'r') { g_random = true; g_rng = strtoull(t.c_str() + 1, NULL, 10) * 2654435761ULL + 1; }
+    if (t == "hi") g_policy = 1;
+    else if (t == "alt") g_policy = 2;
+    else if (t[0] == 'r') { g_random = true; g_rng = strtoull(t.c_str() + 1, NULL, 10) * 2654435761ULL + 1; }
     else g_choices.push_back(atoi(t.c_str()));
   }
 }
